@@ -224,21 +224,6 @@ static int numNibbles(int value) {
   return n;
 }
 
-/// Return the length of an instruction that has a relative label reference.
-/// The length of the encoding depends on the distance to the label, which in
-/// turn depends on the length of the instruction. Calculate the value by
-/// increasing the length until they match. Note that for positive references,
-/// the length of the encoding reduces the range that must be represented, and
-/// for negative references the encoding length adds to the range that must be
-/// represented.
-static int instrLen(int labelOffset, int byteOffset) {
-  int length = 1;
-  while (length < numNibbles(labelOffset - byteOffset - length)) {
-    length++;
-  }
-  return length;
-}
-
 //===---------------------------------------------------------------------===//
 // Directive data types.
 //===---------------------------------------------------------------------===//
@@ -351,17 +336,44 @@ class InstrLabel : public Directive {
   std::string label;
   int labelValue;
   bool relative;
+  // The encoded length in bytes. This only ever grows during layout, which
+  // guarantees that the layout iteration terminates.
+  size_t size;
+  static size_t encodedSize(int value) {
+    return (value < 0 && numNibbles(value) == 1) ? 2 : numNibbles(value);
+  }
 public:
   InstrLabel(Token token, std::string label, bool relative) :
-      Directive(token), label(label), relative(relative) {}
+      Directive(token), label(label), labelValue(0), relative(relative), size(1) {}
   InstrLabel(Location location, Token token, std::string label, bool relative) :
-      Directive(location, token), label(label), relative(relative) {}
-  void setLabelValue(int newValue) { labelValue = newValue; }
+      Directive(location, token), label(label), labelValue(0), relative(relative), size(1) {}
+  /// Set the operand value, growing the encoding if it no longer fits. Return
+  /// true if the instruction had to grow.
+  bool setLabelValue(int newValue) {
+    labelValue = newValue;
+    if (encodedSize(newValue) > size) {
+      size = encodedSize(newValue);
+      return true;
+    }
+    return false;
+  }
+  /// Set the operand of a relative reference from the distance between the
+  /// start of this instruction and the label. The operand is relative to the
+  /// end of the instruction, so it depends on the encoded length: grow the
+  /// length until the operand fits. Return true if the instruction had to grow.
+  bool setRelativeLabelOffset(int offset) {
+    size_t newSize = size;
+    while (newSize < encodedSize(offset - static_cast<int>(newSize))) {
+      newSize++;
+    }
+    bool grown = newSize != size;
+    size = newSize;
+    labelValue = offset - static_cast<int>(newSize);
+    return grown;
+  }
   bool operandIsLabel() const { return true; }
   bool isRelative() const { return relative; }
-  size_t getSize() const {
-    return (labelValue < 0 && numNibbles(labelValue) == 1) ? 2 : numNibbles(labelValue);
-  }
+  size_t getSize() const { return size; }
   int getValue() const { return labelValue; }
   std::string getLabel() const { return label; }
   std::string toString() const {
@@ -729,56 +741,61 @@ class CodeGen {
     }
   }
 
-  /// Iteratively update label values until the program size does not change.
-  /// Return the final size of the program.
-  void resolveLabels() {
-    int lastSize = -1;
+  /// Assign byte offsets to all directives and values to all labels, using the
+  /// current sizes of the instructions.
+  void layoutProgram() {
     int byteOffset = 0;
-    //int count = 0;
-    while (lastSize != byteOffset) {
-      //std::cout << "Resolving labels iteration " << count++ << "\n";
-      lastSize = byteOffset;
-      byteOffset = 0;
-      for (auto &directive : program) {
-        if (directive->getToken() == Token::DATA) {
-          // Data must be on 4-byte boundaries.
-          if (byteOffset & 0x3) {
-            byteOffset += 4 - (byteOffset & 0x3);
-          }
+    for (auto &directive : program) {
+      if (directive->getToken() == Token::DATA) {
+        // Data must be on 4-byte boundaries.
+        if (byteOffset & 0x3) {
+          byteOffset += 4 - (byteOffset & 0x3);
         }
-        // Update the label value.
-        if (directive->getToken() == Token::IDENTIFIER ||
-            directive->getToken() == Token::FUNC ||
-            directive->getToken() == Token::PROC) {
-          dynamic_cast<Label*>(directive.get())->setLabelValue(byteOffset);
-        }
-        // Update the label operand value of an instruction, accounting for
-        // relative and absolute references.
-        if (directive->operandIsLabel()) {
-          auto instrLabel = dynamic_cast<InstrLabel*>(directive.get());
-          if (labelMap.count(instrLabel->getLabel()) == 0) {
-            throw UnknownLabelError(directive->getLocation(), instrLabel->getLabel());
-          }
-          int labelValue = labelMap[instrLabel->getLabel()]->getValue();
-          if (instrLabel->isRelative()) {
-            int offset = labelValue - byteOffset;
-            //std::cout << "label value " << labelValue
-            //          << " byteOffset " << byteOffset
-            //          << " offset " << offset
-            //          << " instrlen " << instrLen(labelValue, byteOffset) << "\n";
-            if (offset >= 0) {
-              instrLabel->setLabelValue(offset - instrLen(labelValue, byteOffset));
-            } else {
-              instrLabel->setLabelValue(offset - instrLen(labelValue, byteOffset));
-            }
-          } else {
-            assert((labelValue & 0x3) == 0 && "absolute label value is not word aligned");
-            instrLabel->setLabelValue(labelValue >> 2);
-          }
-        }
-        directive->setByteOffset(byteOffset);
-        byteOffset += directive->getSize();
       }
+      // Update the label value.
+      if (directive->getToken() == Token::IDENTIFIER ||
+          directive->getToken() == Token::FUNC ||
+          directive->getToken() == Token::PROC) {
+        dynamic_cast<Label*>(directive.get())->setLabelValue(byteOffset);
+      }
+      directive->setByteOffset(byteOffset);
+      byteOffset += directive->getSize();
+    }
+  }
+
+  /// Update the label operand values of instructions from the current layout,
+  /// accounting for relative and absolute references. Return true if any
+  /// instruction had to grow to hold its operand.
+  bool updateLabelOperands() {
+    bool grown = false;
+    for (auto &directive : program) {
+      if (directive->operandIsLabel()) {
+        auto instrLabel = dynamic_cast<InstrLabel*>(directive.get());
+        if (labelMap.count(instrLabel->getLabel()) == 0) {
+          throw UnknownLabelError(directive->getLocation(), instrLabel->getLabel());
+        }
+        int labelValue = labelMap[instrLabel->getLabel()]->getValue();
+        if (instrLabel->isRelative()) {
+          int offset = labelValue - static_cast<int>(directive->getByteOffset());
+          grown |= instrLabel->setRelativeLabelOffset(offset);
+        } else {
+          assert((labelValue & 0x3) == 0 && "absolute label value is not word aligned");
+          grown |= instrLabel->setLabelValue(labelValue >> 2);
+        }
+      }
+    }
+    return grown;
+  }
+
+  /// Iteratively lay out the program and update label operands until no
+  /// instruction needs to grow. Since instructions never shrink, this
+  /// terminates, and in the final iteration all operands were computed from
+  /// the final layout.
+  void resolveLabels() {
+    bool grown = true;
+    while (grown) {
+      layoutProgram();
+      grown = updateLabelOperands();
     }
   }
 
